@@ -713,6 +713,10 @@ def maxNestedLevels : Nat := 32
 def parserAccepts (s : Cbor.Stats) : Bool :=
   s.maxArr ≤ maxArrayElements ∧ s.maxMap ≤ maxMapPairs ∧ s.depth ≤ maxNestedLevels
 
+/-- the hand-written path from the tree the byte parser would deliver: the parser's limits first, then `decode` -/
+def decodeLimited (k : Kind) (v : Val) : Outcome Node :=
+  if parserAccepts (Cbor.stats 64 v) then decode k v else .err "cbor: exceeded max number of elements / nested levels"
+
 end Fast
 
 /-! ## observations (exported plain fields + the accessors of methods.go) -/
@@ -805,5 +809,20 @@ def Node.WF : Node → Prop
   | .dataFrame x => x.WF
 instance (n : Node) : Decidable n.WF := by
   unfold Node.WF; split <;> exact inferInstance
+
+/-- the longest list of a typed value (what the byte parser's element limit is compared with) -/
+def DataFrame.maxList (d : DataFrame) : Nat :=
+  match d.next with
+  | some (some l) => l.length
+  | _ => 0
+
+def Node.maxList : Node → Nat
+  | .transaction x => max x.data.maxList x.metadata.maxList
+  | .entry x => x.transactions.length
+  | .block x => max x.shredding.length x.entries.length
+  | .subset x => x.blocks.length
+  | .epoch x => x.subsets.length
+  | .rewards x => x.data.maxList
+  | .dataFrame x => x.maxList
 
 end Ledger
